@@ -14,6 +14,7 @@ import Dtaiverif.Model.Hier
 import Dtaiverif.Model.KMeans
 import Dtaiverif.Model.NW
 import Dtaiverif.Model.Affinity
+import Dtaiverif.Model.Similarity
 
 open Lean
 
@@ -364,12 +365,72 @@ def opLc (j : Json) : Except String Json := do
     ("negative", cellsJ ((List.range out.1.length).flatMap fun i => ((List.range ((out.1[i]?.getD []).length)).filter fun k =>
       match out.1.get i k with | some x => decide (x < 0) | none => false).map fun k => (i, k)))]
 
+instance : HasExp Float := ⟨Float.exp, Float.log, Float.sqrt, Float.pow⟩
+instance : One Float := ⟨1.0⟩
+instance : Zero Float := ⟨0.0⟩
+
+def floatOfBitsJ (j : Json) : Option Float :=
+  match j.getNat? with
+  | .ok n => some (Float.ofBits (UInt64.ofNat n))
+  | .error _ => none
+def bitsJ (x : Float) : Json := Json.num (x.toBits.toNat : Nat)
+def getF (j : Json) (k : String) : Option Float :=
+  match j.getObjVal? k with | .ok v => floatOfBitsJ v | .error _ => none
+
+/-- op "similarity": `distance_to_similarity` / `squash` on IEEE doubles (given as bit patterns); numpy's
+`quantile` and `mean` results are inputs (`Q`, `mean`), everything else is computed by the model -/
+def opSimilarity (j : Json) : Except String Json := do
+  let kind := getStrD j "kind" "d2s"
+  let method := getStrD j "method" "exponential"
+  let arr ← (j.getObjVal? "D") >>= (·.getArr?)
+  let D : List Float := arr.toList.filterMap floatOfBitsJ
+  let rIn := getF j "r"
+  let aIn := getF j "a"
+  let x0In := getF j "x0"
+  let base := getF j "base"
+  let cover : Option (Float × Float) := match getF j "Q", getF j "target" with | some q, some t => some (q, t) | _, _ => none
+  let keep := getBoolD j "keepSign" false
+  if kind == "d2s" then
+    match method with
+    | "exponential" =>
+      let r := rIn.getD (guardScale (match cover with | some (q, t) => coverExponential q t | none => defaultScaleMax D))
+      return Json.mkObj [("out", Json.arr (D.map fun d => bitsJ (simExponential r d)).toArray), ("r", bitsJ r)]
+    | "gaussian" =>
+      let r := rIn.getD (guardScale (match cover with | some (q, t) => coverGaussian q t | none => defaultScaleMax D))
+      return Json.mkObj [("out", Json.arr (D.map fun d => bitsJ (simGaussian r d)).toArray), ("r", bitsJ r)]
+    | "reciprocal" =>
+      let r := rIn.getD 1.0
+      let a := aIn.getD (match cover with | some (q, t) => coverReciprocalA r q t | none => 1.0)
+      return Json.mkObj [("out", Json.arr (D.map fun d => bitsJ (simReciprocal r a d)).toArray), ("r", bitsJ r), ("a", bitsJ a)]
+    | "reverse" =>
+      let r := rIn.getD (guardScale (defaultScaleReverse D))
+      return Json.mkObj [("out", Json.arr (D.map fun d => bitsJ (simReverse r d)).toArray), ("r", bitsJ r)]
+    | _ => throw "unknown method"
+  else
+    let X : List Float := if keep then D.map Float.abs else D
+    let fin := fun (f : Float → Float) (r x0 : Float) =>
+      let out := if keep then D.map (keepSign f) else X.map f
+      Json.mkObj [("out", Json.arr (out.map bitsJ).toArray), ("r", bitsJ r), ("x0", bitsJ x0)]
+    match method with
+    | "logistic" =>
+      let x0 := x0In.getD ((getF j "mean").getD 0.0)
+      let r := rIn.getD (guardScale (match cover with | some (q, t) => coverLogistic q x0 t | none => x0 / 6.0))
+      return fin (match base with | some b => sqLogisticBase b r x0 | none => sqLogistic r x0) r x0
+    | "gaussian" =>
+      let r := rIn.getD (guardScale (match cover with | some (q, t) => coverGaussian q (1.0 - t) | none => 1.0))
+      return fin (match base with | some b => sqGaussianBase b r | none => sqGaussian r) r 0.0
+    | "exponential" =>
+      let r := rIn.getD (guardScale (match cover with | some (q, t) => coverExponential q (1.0 - t) | none => 1.0))
+      return fin (match base with | some b => sqExponentialBase b r | none => sqExponential r) r 0.0
+    | _ => throw "unknown method"
+
 def dispatch (j : Json) : Except String Json := do
   let op ← (j.getObjVal? "op") >>= (·.getStr?)
   let res ← match op with
     | "dtw" => opDtw j
     | "knn" => opKnn j
     | "hier" => opHier j
+    | "similarity" => opSimilarity j
     | "affinity" => opAffinity j
     | "lc" => opLc j
     | "nw" => opNW j
